@@ -634,7 +634,7 @@ func c10Persist(c c10PersistCase) (string, string) {
 // c10PersistReal: the same persistence question over real sockets and real
 // timers (per-attempt timeout 150 ms, caller's deadline 2.5 s, the stock
 // exponential back-off): while every attempt is answered "node busy" the call
-// must still be trying shortly before its deadline. Only a return well before
+// must still be trying a second into it. Only a return well before
 // the deadline is judged (a late one is C13's business), so load can only make
 // this check more lenient.
 func c10PersistReal(call string) (string, string) {
@@ -673,8 +673,11 @@ func c10PersistReal(call string) (string, string) {
 	if err == nil {
 		return "C10/persist/success-without-valid-response", fmt.Sprintf("[real sockets] %s answered node busy on every attempt returned nil after %v", call, took)
 	}
-	if took < 1500*time.Millisecond {
-		return "C10/persist/gave-up-while-the-context-was-alive/" + call, fmt.Sprintf("[real sockets] %s answered node busy on every attempt (per-attempt timeout 150 ms, stock back-off) returned %q after %v, with a second of its 2.5 s deadline still ahead", call, err, took)
+	// 1 s, not more: an implementation that stops as soon as its next back-off
+	// sleep would cross the deadline can legitimately return from about 1.19 s
+	// on (sleeps of at least 0.25, 0.375 and 0.56 s, then one of up to 2.5 s)
+	if took < 1000*time.Millisecond {
+		return "C10/persist/gave-up-while-the-context-was-alive/" + call, fmt.Sprintf("[real sockets] %s answered node busy on every attempt (per-attempt timeout 150 ms, stock back-off) returned %q after %v, with a second and a half of its 2.5 s deadline still ahead", call, err, took)
 	}
 	return "", ""
 }
